@@ -259,6 +259,9 @@ func TestVerif_C14(t *testing.T) {
 		t.Fatal(err)
 	}
 	full := r.Thorough()
+	// besides 2^16, 2^31, 2^32, 2^56, 2^64-1: declared lengths whose product with an element size
+	// wraps around 2^64 (a bound written as length*elemSize <= remaining passes them)
+	cgenExtraIns = cgenWrapLengths()
 
 	var rc c14Case
 	if r.IsReplay(&rc) {
@@ -274,7 +277,7 @@ func TestVerif_C14(t *testing.T) {
 		if err != nil {
 			t.Fatalf("replay: seed cannot be encoded: %v", err)
 		}
-		run.runCase(0, cgenSeed{ct, rc.Devs, enc, 0, true}, *rc.Mut)
+		run.runCase(0, cgenSeed{ct: ct, devs: rc.Devs, enc: enc, structural: true}, *rc.Mut)
 		return
 	}
 
@@ -298,7 +301,7 @@ func TestVerif_C14(t *testing.T) {
 				continue
 			}
 			ord := uint64(0)
-			cgenMutations(seed.enc, full && seed.structural, func(m cgenMut) {
+			seed.Mutations(full, func(m cgenMut) {
 				if sink.Begin(seed.unit, ord) {
 					run.runCase(seed.unit, seed, m)
 				}
@@ -340,7 +343,7 @@ func TestVerif_C14(t *testing.T) {
 			seed.unit = uint64(u)
 			units = append(units, seed)
 			byUnit[seed.unit] = seed
-			planned += cgenMutCount(seed.enc, full && seed.structural)
+			planned += seed.MutCount(full)
 		}
 	}
 	for li := 0; li < len(c14FrameLens)*len(c14FrameTypes); li++ {
@@ -356,7 +359,7 @@ func TestVerif_C14(t *testing.T) {
 			break
 		}
 		r.Sample(map[string]interface{}{"decoder": seed.ct.Name, "seed_deviations": seed.devs, "seed_encoding": cgenHex(seed.enc),
-			"mutations": cgenMutCount(seed.enc, full && seed.structural)})
+			"mutations": seed.MutCount(full)})
 	}
 	killed := map[string]bool{}
 	deaths := uint64(0)
@@ -384,7 +387,7 @@ func TestVerif_C14(t *testing.T) {
 				seed := byUnit[d.Unit]
 				name = seed.ct.Name
 				ord := uint64(0)
-				cgenMutations(seed.enc, full && seed.structural, func(m cgenMut) {
+				seed.Mutations(full, func(m cgenMut) {
 					if ord == d.Ord {
 						mm := m
 						cs = c14Case{Type: name, Devs: seed.devs, Mut: &mm}
